@@ -365,16 +365,35 @@ def _op_ivp(ctx, op, state):
             return
         if tspec[0] in ("exp", "power", "lininf") and tspec[3] is None:
             tf = twin  # the IVP solver sees a 2-element span first: give it the explicit scale
-    fx, coeffs = OP.make_callables(P)
     reverse = len(op) > 4 and bool(op[4])
     if reverse:
         a, b = b, a  # integrate from the upper end down to the lower end (a decreasing span, as solve_poisson_ivp does)
         ctx.probes.hit("ivp-decreasing-span")
+    y0kind = op[5] if len(op) > 5 else None
+    if y0kind and _amp(P) == 1.0:
+        # initial data that happen to be whole numbers, written down as Python ints / an integer ndarray: the same
+        # manufactured problem plus a polynomial of degree order-1 that moves y, y', y'' at the starting point onto integers
+        P = copy.deepcopy(P)
+        cur = [float(OP.sol_deriv(P["terms"], k, np.array([a]))[0]) for k in range(P["order"])]
+        corr = np.polynomial.Polynomial([0.0])
+        fact = 1.0
+        for k in range(P["order"]):
+            fact *= max(k, 1)
+            corr = corr + (np.round(cur[k]) - cur[k]) / fact * np.polynomial.Polynomial([-a, 1.0]) ** k
+        P["terms"] = list(P["terms"]) + [["poly", [float(c) for c in corr.coef]]]
+        ctx.probes.hit("ivp-integer-typed-initial-values")
+    else:
+        y0kind = None
+    fx, coeffs = OP.make_callables(P)
     y0 = [float(OP.sol_deriv(P["terms"], k, np.array([a]))[0]) for k in range(P["order"])]
-    sh = state.setdefault("shared" if not reverse else "shared_rev", {})
+    sh = state.setdefault(("shared" if not reverse else "shared_rev") + (":" + y0kind if y0kind else ""), {})
     kind = ("array", "list", "array", "tuple")[(P["n"] + P["order"]) % 4]
     if "y0" not in sh:
-        sh["y0"] = np.array(y0, dtype=float) if kind == "array" else (tuple(y0) if kind == "tuple" else list(y0))
+        if y0kind:
+            yi = [int(round(v)) for v in y0]
+            sh["y0"] = np.array(yi, dtype=int) if y0kind == "int_array" else yi
+        else:
+            sh["y0"] = np.array(y0, dtype=float) if kind == "array" else (tuple(y0) if kind == "tuple" else list(y0))
     y0 = sh["y0"]  # one initial-data object for every IVP solve of the run (direct and through the transform)
     rtol = 1e-10
     # absolute tolerance: 1e-10 for O(1) solutions; for tiny / huge solutions purely relative control (atol = 0, legal in SciPy)
@@ -478,7 +497,8 @@ class OdeSeamEngine:
                     o["guess"] = "zeros"
                 ops.append(["bvp", rng.choice(modes), beh, rng.randrange(1000), o])
             elif u < 0.78:
-                ops.append(["ivp", rng.choice(modes), rng.choice(["DOP853", "RK45", "Radau", "LSODA", "BDF", "RK23"]), rng.randrange(3), rng.random() < 0.25])
+                ops.append(["ivp", rng.choice(modes), rng.choice(["DOP853", "RK45", "Radau", "LSODA", "BDF", "RK23"]), rng.randrange(3), rng.random() < 0.25,
+                            rng.choice([None, None, None, "int_list", "int_array"])])
             elif u < 0.88:
                 ops.append(["perturb", rng.randrange(200), rng.choice([None, 0, 7])])
             else:
